@@ -246,7 +246,7 @@ PROPS["C05"] = {
             "1-4 structure-aware field corruptions (every header field, DIFAT/FAT/MiniFAT cells -> self/other chain/out of range/special "
             "values, directory name/type/colour/links/start/size), or (one input in ten) a compound deviation - an orphaned entry adopted as a stream's child, a chain returning to its first sector under a huge length, a chain ending in FREESECT, two streams sharing a chain, a tail pointing into another chain -, or truncated/extended/bit-flipped, or a repo fuzz seed, or random "
             "bytes behind a valid header, or a DIFAT amplification input; opened permissive and strict, then the read-only battery (walk, "
-            "listings, lookups, every stream read in odd chunks, fill_buf, read_to_end, extreme seeks). Monitors: panic hook, CPU-time "
+            "listings, lookups, every stream read in odd chunks, fill_buf, read_to_end, extreme seeks; lookups, listings and open_stream *below* each of the first 40 objects the walk showed, streams included). Monitors: panic hook, CPU-time "
             "watchdog (10 s/case, isolated 10x confirmation), I/O step budget per API call, peak heap <= 8 MiB + 4096*len. Four shards first open and walk a library-written file with a chain-shaped directory (2500-9000 children, thorough up to 30000) on a thread with a 256 KiB stack. "
             "non-trivial = input that got past the header check; distinct = FNV-64 of the input",
     "assumptions": COMMON_ASSUMPTIONS + [
@@ -258,7 +258,7 @@ PROPS["C05"] = {
     "quick": {"budget_s": 20},
     "thorough": {"budget_s": 300},
     "floors": {
-        "quick": {"evaluations": 200000, "accepted.Permissive": 50000, "accepted.Strict": 20000, "rejected_after_header": 200000, "streams_opened": 200000,
+        "quick": {"evaluations": 200000, "accepted.Permissive": 50000, "accepted.Strict": 20000, "rejected_after_header": 200000, "streams_opened": 200000, "lookups_below_listed_objects": 200000,
                   "input.amplification": 3000, "input.repo_seed": 5000, "mutation.FatCell": 10000, "mutation.MiniFatCell": 10000, "mutation.DirStart": 10000, "mutation.size": 10000, "mutation.compound": 20000, "wide.hostile_scenarios_passed": 4},
         "thorough": {"evaluations": 2000000},
     },
